@@ -179,6 +179,9 @@ func c07Check(c c07Case, res *c07Result) error {
 			if pan != nil {
 				return fmt.Errorf("%s panicked at $%06x: %v", cpu.Name(), at, pan)
 			}
+			if f := mem.BusFault(); f != "" {
+				return fmt.Errorf("%s executing the instruction at $%06x %s: with more than one device on the bus it would decode other bytes than the assembler emitted", cpu.Name(), at, f)
+			}
 			for _, ac := range mem.Log {
 				if ac.Write && ac.Addr >= base && ac.Addr < end {
 					if res != nil {
@@ -346,8 +349,8 @@ func TestC07(t *testing.T) {
 				if len(c.Ops) > 1 && rapid.IntRange(0, 2).Draw(t, "via-clone") == 0 {
 					c.CloneFrom = rapid.IntRange(0, len(c.Ops)-1).Draw(t, "clone-from")
 					c.CloneTo = rapid.IntRange(c.CloneFrom+1, len(c.Ops)).Draw(t, "clone-to")
-					if bi := asmcat.BaseIndex(c.Ops); bi >= 0 && c.CloneFrom <= bi {
-						c.CloneFrom = bi + 1 // the base is set on the original
+					if bi := asmcat.BaseIndex(c.Ops); bi >= 0 && c.CloneFrom <= bi && rapid.Bool().Draw(t, "base-on-original") {
+						c.CloneFrom = bi + 1 // the base is set on the original (otherwise in the clone: Append hands it over)
 					}
 					if c.CloneTo <= c.CloneFrom {
 						c.CloneFrom, c.CloneTo = 0, 0
